@@ -85,7 +85,9 @@ impl ClientDialogBuilder {
         let dialog = Dialog {
             endpoint: self.endpoint.clone(),
             dialog_layer: self.dialog_layer,
-            local_cseq: self.local_cseq.into(),
+            // `local_cseq` was used by the request which created the dialog,
+            // requests inside the dialog continue with the next one
+            local_cseq: (self.local_cseq + 1).into(),
             local_fromto: self.local_fromto.clone(),
             peer_fromto: response.base_headers.to.clone(),
             local_contact: self.local_contact.clone(),
